@@ -117,7 +117,19 @@ func ruleC09HeaderWrapped(c *Ctx) {
 		okE, _ := c.successDominates(fl, ws.cs.Call, isEnc, kill)
 		c.verdictIf(okE, rule, f, base+" encrypted", ws.cs.Call.Pos(),
 			"header written only after EncryptHeader succeeded on it, nothing stored through it since", "a header can reach the tape without having passed EncryptHeader (or is modified after wrapping): names and metadata would be written in clear")
+		// the EncryptHeader call that lies on every path to THIS write (a function has one per branch)
+		encCall = nil
+		for _, cs2 := range f.calls {
+			if calleeObj(info, cs2.Call) != types.Object(p.encHeader.Obj) || len(cs2.Call.Args) != 3 || objOfIdent(info, cs2.Call.Args[0]) != ws.h {
+				continue
+			}
+			call2 := cs2.Call
+			if dom, _ := fl.dominatedBy(ws.cs.Call, func(m ast.Node) bool { return containsNode(m, call2) }, nil); dom {
+				encCall = call2
+			}
+		}
 		if encCall != nil {
+			signCall = nil
 			okS, _ := c.successDominates(fl, encCall, isSign, kill)
 			c.verdictIf(okS, rule, f, base+" signed-then-encrypted", encCall.Pos(),
 				"SignHeader succeeds on the same variable before EncryptHeader", "EncryptHeader can run without SignHeader having succeeded first on the same header (sign-then-encrypt order broken)")
